@@ -5,6 +5,6 @@ cd /repo || exit 2
 git diff --quiet || { echo "/repo dirty"; exit 2; }
 git apply "$P" || { echo "patch does not apply: $P"; exit 2; }
 cd /verif; ./check $PID $TIER > /var/tmp/trypatch.log 2>&1; RC=$?
-git -C /repo checkout -- .
+git -C /repo checkout -- . ; git -C /repo clean -fdq
 grep -E "VIOLATION|MACHINERY|what:" /var/tmp/trypatch.log | head -4
 echo "patch=$P property=$PID exit=$RC"
